@@ -1573,3 +1573,116 @@ Proof.
   - rewrite !(add_to_diag_spec (tp objs)) by (auto; apply noreg_bound). rewrite HC, HD by assumption. reflexivity.
   - rewrite HC, HD by assumption. reflexivity.
 Qed.
+
+(* ---- no_regularization_index_list = the parameter ranges of the objects without regularization ---- *)
+Lemma noreg_as_flat_map objs :
+  @noreg_index_list ROps objs =
+  flat_map (fun k => if has_reg (ob objs k) then [] else seq (off objs k) (params (ob objs k))) (seq 0 (length objs)).
+Proof.
+  unfold noreg_index_list. rewrite <- (filter_true objs) at 1. rewrite entries_idx.
+  unfold idxs. rewrite filter_true. rewrite flat_map_concat_map, map_map, <- flat_map_concat_map.
+  apply flat_map_ext. intros k. unfold ent. cbn [fst snd]. destruct (has_reg (ob objs k)); auto. f_equal. lia.
+Qed.
+Lemma noreg_In objs a : In a (@noreg_index_list ROps objs) <->
+  exists k la, (k < length objs)%nat /\ (la < params (ob objs k))%nat /\ has_reg (ob objs k) = false /\ a = (off objs k + la)%nat.
+Proof.
+  rewrite noreg_as_flat_map, in_flat_map. split.
+  - intros [k [Hk Ha]]. apply in_seq in Hk. destruct (has_reg (ob objs k)) eqn:R; [contradiction|].
+    apply in_seq in Ha. exists k, (a - off objs k)%nat. repeat split; auto; lia.
+  - intros (k & la & Hk & Hla & R & ->). exists k. split; [apply in_seq; lia|]. rewrite R. apply in_seq. lia.
+Qed.
+Lemma NoDup_flat_map_disjoint {A B} (f : A -> list B) l : NoDup l -> (forall x, In x l -> NoDup (f x)) ->
+  (forall x y z, In x l -> In y l -> In z (f x) -> In z (f y) -> x = y) -> NoDup (flat_map f l).
+Proof.
+  induction 1 as [|a l Ha Hd IH]; intros Hn Hdis; cbn; [constructor|].
+  apply NoDup_app_intro.
+  - apply Hn. now left.
+  - apply IH; [intros; apply Hn; now right | intros x y z Hx Hy; apply Hdis; now right].
+  - intros z H1 H2. apply in_flat_map in H2. destruct H2 as [y [Hy H2]].
+    assert (a = y) by (apply (Hdis a y z); auto; [now left | now right]). subst. contradiction.
+Qed.
+Lemma noreg_NoDup objs : NoDup (@noreg_index_list ROps objs).
+Proof.
+  rewrite noreg_as_flat_map. apply NoDup_flat_map_disjoint.
+  - apply seq_NoDup.
+  - intros k _. destruct (has_reg (ob objs k)); [constructor | apply seq_NoDup].
+  - intros x y z Hx Hy H1 H2. apply in_seq in Hx, Hy.
+    destruct (has_reg (ob objs x)); [contradiction|]. destruct (has_reg (ob objs y)); [contradiction|].
+    apply in_seq in H1, H2.
+    apply (locate_range objs y x (z - off objs y) z); try lia.
+Qed.
+
+(* InversionImagingMapping.curvature_matrix: block (i, j) is B_i^T N^-1 B_j, plus eps exactly on the diagonal of the objects
+   without regularization *)
+Theorem F_mapping_blocks (c : @convolver ROps) objs n (s : list R) eps i j la lb :
+  (0 < n)%nat -> (forall o, In o objs -> shape n (params o) (opmat c o)) -> (forall k, (k < n)%nat -> nth k s 0 <> 0) ->
+  (i < length objs)%nat -> (j < length objs)%nat -> (la < params (ob objs i))%nat -> (lb < params (ob objs j))%nat ->
+  mget (@F_mapping ROps c objs n s eps) (off objs i + la) (off objs j + lb) =
+  sumR (map (fun k => mget (opmat c (ob objs i)) k la * mget (opmat c (ob objs j)) k lb / (nth k s 0 * nth k s 0)) (seq 0 n))
+  + (if Nat.eqb i j && Nat.eqb la lb && negb (has_reg (ob objs i)) then eps else 0).
+Proof.
+  intros Hn Hsh Hs Hi Hj Hla Hlb. unfold F_mapping.
+  pose proof (shape_op_matrix c objs n Hsh) as HB. set (B := op_matrix c objs n) in *.
+  assert (HncB : ncols B = tp objs) by (apply (ncols_shape B n); auto).
+  assert (HlB : length B = n) by (now destruct HB).
+  pose proof (off_bound objs i Hi). pose proof (off_bound objs j Hj).
+  rewrite curv_mapping_spec; rewrite ?HlB, ?HncB; auto using noreg_NoDup, noreg_bound; try lia.
+  f_equal.
+  - apply sumR_map_ext. intros k Hk. apply in_seq in Hk. subst B. rewrite !op_matrix_cell by (auto; lia). reflexivity.
+  - cbn [andb].
+    destruct (Nat.eqb (off objs i + la) (off objs j + lb)) eqn:X.
+    + apply Nat.eqb_eq in X.
+      assert (j = i) by (apply (locate_range objs i j la (off objs i + la)); auto; lia). subst j.
+      assert (la = lb) by lia. subst lb. rewrite !Nat.eqb_refl. cbn [andb].
+      destruct (has_reg (ob objs i)) eqn:R; cbn [negb].
+      * destruct (existsb (Nat.eqb (off objs i + la)) (@noreg_index_list ROps objs)) eqn:Ex; auto.
+        apply existsb_exists in Ex. destruct Ex as [x [Hx Ex]]. apply Nat.eqb_eq in Ex. subst x.
+        apply noreg_In in Hx. destruct Hx as (k & la' & Hk & Hla' & R' & Heq).
+        assert (k = i) by (apply (locate_range objs i k la (off objs i + la)); auto; lia). subst k. congruence.
+      * assert (existsb (Nat.eqb (off objs i + la)) (@noreg_index_list ROps objs) = true) as ->; auto.
+        apply existsb_exists. exists (off objs i + la)%nat. split; [|apply Nat.eqb_refl].
+        apply noreg_In. exists i, la. auto.
+    + cbn [andb]. destruct (Nat.eqb i j) eqn:Y; cbn [andb]; auto. destruct (Nat.eqb la lb) eqn:Z; cbn [andb]; auto.
+      apply Nat.eqb_eq in Y, Z. subst j lb. rewrite Nat.eqb_refl in X. discriminate.
+Qed.
+(* hence symmetric *)
+Theorem F_mapping_symmetric (c : @convolver ROps) objs n (s : list R) eps a b :
+  (0 < n)%nat -> (forall o, In o objs -> shape n (params o) (opmat c o)) -> (forall k, (k < n)%nat -> nth k s 0 <> 0) ->
+  (a < tp objs)%nat -> (b < tp objs)%nat ->
+  mget (@F_mapping ROps c objs n s eps) a b = mget (@F_mapping ROps c objs n s eps) b a.
+Proof.
+  intros Hn Hsh Hs Ha Hb. destruct (locate_exists objs a Ha) as (i & la & Hi & Hla & ->).
+  destruct (locate_exists objs b Hb) as (j & lb & Hj & Hlb & ->).
+  rewrite !F_mapping_blocks by auto. f_equal.
+  - apply sumR_map_ext. intros k _. unfold Rdiv. ring.
+  - rewrite (Nat.eqb_sym j i), (Nat.eqb_sym lb la).
+    destruct (Nat.eqb i j) eqn:Y; cbn [andb]; auto. apply Nat.eqb_eq in Y. now subst.
+Qed.
+(* data vector of the mapping formalism, block by block *)
+Theorem D_mapping_blocks (c : @convolver ROps) objs (d s : list R) n i la :
+  length d = n -> (0 < n)%nat -> (forall o, In o objs -> shape n (params o) (opmat c o)) -> (i < length objs)%nat -> (la < params (ob objs i))%nat ->
+  nth (off objs i + la) (@D_mapping ROps c objs d s) 0 =
+  sumR (map (fun k => nth k d 0 * mget (opmat c (ob objs i)) k la / (nth k s 0 * nth k s 0)) (seq 0 n)).
+Proof.
+  intros Hd Hn Hsh Hi Hla. unfold D_mapping. rfix. rewrite Hd.
+  pose proof (shape_op_matrix c objs n Hsh) as HB.
+  assert (HncB : ncols (op_matrix c objs n) = tp objs) by (apply (ncols_shape _ n); auto).
+  assert (HlB : length (op_matrix c objs n) = n) by (now destruct HB).
+  pose proof (off_bound objs i Hi).
+  rewrite dv_blurred_spec by (rewrite HncB; lia). rewrite HlB.
+  apply sumR_map_ext. intros k Hk. apply in_seq in Hk. rewrite op_matrix_cell by (auto; lia). reflexivity.
+Qed.
+(* w-tilde data vector of one mapper = its block of the mapping data vector, given w_tilde_data = C^T N^-1 d *)
+Theorem wt_data_vector_block (c : @convolver ROps) (d s wd : list R) e P n p :
+  length wd = n -> wd_is_adjoint c d s wd n -> enc_ok e P -> (p < P)%nat ->
+  nth p (@dv_wtd ROps wd e P) 0 = sumR (map (fun i => nth i d 0 * Bm e c n i p / (nth i s 0 * nth i s 0)) (seq 0 n)).
+Proof.
+  intros Hl Hwd He Hp. rewrite dv_wtd_spec by auto. rewrite Hl.
+  transitivity (sumR (map (fun k => sumR (map (fun i => E e k p * Cop c i k * (nth i d 0 / (nth i s 0 * nth i s 0))) (seq 0 n))) (seq 0 n))).
+  - apply sumR_map_ext. intros k Hk. apply in_seq in Hk. rewrite Hwd by lia. rewrite <- sumR_map_scal.
+    apply sumR_map_ext. intros i _. ring.
+  - rewrite (sumR_swap (fun k i => E e k p * Cop c i k * (nth i d 0 / (nth i s 0 * nth i s 0))) (seq 0 n) (seq 0 n)).
+    apply sumR_map_ext. intros i _. unfold Bm, Rdiv. rewrite sumR_map_mul_l.
+    transitivity (sumR (map (fun k => E e k p * Cop c i k) (seq 0 n)) * (nth i d 0 * / (nth i s 0 * nth i s 0))); [|ring].
+    rewrite <- sumR_map_mul_l. reflexivity.
+Qed.
